@@ -186,3 +186,88 @@ example : getitem (sequence rd id 10 0) (some 2) none = some [⟨2, [0xc3], true
 example : cut (sequence rd id 10 0) 2 = ([⟨0, [0x31, 0xc0], false, false⟩], 2) := by decide
 
 end Amoco.Blocks.Props
+
+namespace Amoco.Cfg.Props
+
+open Amoco Amoco.Blocks Amoco.Cfg
+
+/-! ## Control-flow graph: vertex insertion partitions the code -/
+
+/-- For every instruction stream as the sweep yields it (`StreamOK`: consecutive, non-empty
+    instructions) and every list `hist` of blocks cut from it (`IsRun`: non-empty contiguous parts;
+    the list is the insertion history, so this quantifies over every order, subset and repetition),
+    inserting them one after the other into an empty graph succeeds, and afterwards the main support
+      * is sorted with pairwise disjoint address ranges,
+      * holds only non-empty blocks cut from the same stream, each stored at its own address,
+      * contains exactly the instructions that were inserted,
+      * each of them once (the instruction addresses along the support are strictly increasing). -/
+theorem cfg_partition (S : List Instr) (hS : StreamOK S) (hist : List Block) (hh : ∀ v ∈ hist, IsRun S v) :
+    ∃ g, addAll Graph.empty hist = some g ∧
+      g.support.Pairwise (fun m1 m2 => m1.end ≤ m2.vaddr) ∧
+      (∀ m ∈ g.support, IsRun S m.blk ∧ address? m.blk = some m.vaddr) ∧
+      (∀ x, x ∈ (g.support.map (·.blk)).flatten ↔ ∃ v ∈ hist, x ∈ v) ∧
+      ((g.support.map (·.blk)).flatten).Nodup := by
+  obtain ⟨g, h1, h2, h3, h4, h5⟩ := partition_core hS hist hh
+  refine ⟨g, h1, h2, h3, h4, ?_⟩
+  exact List.Pairwise.imp (fun {a b} (h : a.addr < b.addr) => by
+    intro heq; rw [heq] at h; exact Nat.lt_irrefl _ h) h5
+
+/-- … with a fall-through edge wherever a block was split: whenever two stored blocks are adjacent
+    (`m1` ends where `m2` starts) and some inserted block contains both the last instruction of `m1`
+    and the first instruction of `m2` (it was split there), the graph has the edge `m1 → m2`. -/
+theorem cfg_fallthrough (S : List Instr) (hS : StreamOK S) (hist : List Block) (hh : ∀ v ∈ hist, IsRun S v) :
+    ∃ g, addAll Graph.empty hist = some g ∧
+      ∀ m1 ∈ g.support, ∀ m2 ∈ g.support, m1.end = m2.vaddr →
+        (∃ v ∈ hist, ∃ x y, m1.blk.getLast? = some x ∧ m2.blk.head? = some y ∧ x ∈ v ∧ y ∈ v) →
+        (m1.vaddr, m2.vaddr) ∈ g.edges :=
+  fallthrough_core hS hist hh
+
+/-- `get_with_address` finds, for the address of every inserted instruction, the stored block that
+    contains it, and nothing for an instruction of the stream that was never inserted. -/
+theorem get_with_address_spec (S : List Instr) (hS : StreamOK S) (hist : List Block) (hh : ∀ v ∈ hist, IsRun S v) :
+    ∃ g, addAll Graph.empty hist = some g ∧
+      ∀ x ∈ S,
+        ((∃ v ∈ hist, x ∈ v) → ∃ m ∈ g.support, getWithAddress g x.addr = some m ∧ x ∈ m.blk) ∧
+        ((¬ ∃ v ∈ hist, x ∈ v) → getWithAddress g x.addr = none) :=
+  getWithAddress_core hS hist hh
+
+/-- one insertion, stated on its own: into any zone of runs of the stream (index intervals `ivs`),
+    `add_vertex` of the run `s..e-1` returns the node stored at its start address and the new zone is
+    again a zone of runs that covers the old instructions and the new ones, all other blocks kept. -/
+theorem add_vertex_step (S : List Instr) (hS : StreamOK S) (ivs : List Iv) (E : Edges) (s e : Nat)
+    (hok : IvsOK S.length ivs) (hse : s < e) (he : e ≤ S.length) :
+    ∃ ivs' E', addVertex ((run S s e).length + 1) ⟨rep S ivs, E⟩ (run S s e) = .ok ⟨rep S ivs', E'⟩ (addrOf S s) ∧
+      IvsOK S.length ivs' ∧ (∀ k, cov ivs' k ↔ (cov ivs k ∨ (s ≤ k ∧ k < e))) ∧
+      (∀ iv ∈ ivs, ¬(iv.1 < s ∧ s < iv.2) → iv ∈ ivs') := by
+  have hA : ∀ a b, a ≤ S.length → b ≤ S.length → addrOf S a = addrOf S b → a = b :=
+    fun a b ha hb => addrOf_inj hS a b ha hb
+  obtain ⟨ivs', E', hr, sp⟩ := absAdd_spec (addrOf S) hA ((run S s e).length + 1) ivs E s e hok hse he
+    (by rw [run_length s e he]; omega)
+  refine ⟨ivs', E', ?_, sp.ok, sp.covers, sp.keep⟩
+  rw [addVertex_refines hS _ ivs E s e hok hse he, hr]
+  rfl
+
+-- non-vacuity: a stream of five instructions; blocks inserted out of order, one starting in the
+-- middle of a stored block, one swallowing a later one, one equal block twice
+private def S5 : List Instr :=
+  [⟨0, [1, 2], false, false⟩, ⟨2, [3], false, false⟩, ⟨3, [4, 5, 6], true, false⟩,
+   ⟨6, [7], false, false⟩, ⟨7, [8, 9], true, false⟩]
+
+example : StreamOK S5 :=
+  ⟨⟨by decide, by decide, by decide, by decide, trivial⟩, by decide⟩
+
+example : ∀ v ∈ [S5.drop 3, (S5.take 3).drop 1, S5.take 4, (S5.take 3).drop 2, S5.drop 3], IsRun S5 v := by
+  intro v hv
+  simp only [List.mem_cons, List.not_mem_nil, or_false] at hv
+  rcases hv with rfl | rfl | rfl | rfl | rfl
+  · exact ⟨by decide, ⟨S5.take 3, [], by decide⟩⟩
+  · exact ⟨by decide, ⟨S5.take 1, S5.drop 3, by decide⟩⟩
+  · exact ⟨by decide, ⟨[], S5.drop 4, by decide⟩⟩
+  · exact ⟨by decide, ⟨S5.take 2, S5.drop 3, by decide⟩⟩
+  · exact ⟨by decide, ⟨S5.take 3, [], by decide⟩⟩
+
+example : (addAll Graph.empty [S5.drop 3, (S5.take 3).drop 1, S5.take 4, (S5.take 3).drop 2, S5.drop 3]).map
+      (fun g => (g.support.map (fun m => (m.vaddr, blen m.blk)), g.edges)) =
+    some ([(0, 2), (2, 1), (3, 3), (6, 3)], [(0, 2), (3, 6), (2, 3)]) := by decide
+
+end Amoco.Cfg.Props
